@@ -146,6 +146,48 @@ def run_index_unit(unit):
     return out
 
 
+def run_merge_unit(unit):
+    """unit = (key, segs, pres, queries): what the reader of the index says its terms are -
+    lexicon(), terms_from()/expand_prefix() per prefix (public IndexReader API; on a multi-segment
+    index this is MultiReader._merge_terms over the segment readers), terms_within per (w, d, p)."""
+    key, segs, pres, queries = unit
+    ix = cached_index(key, segs)
+    out = {"tfrom": {}, "expand": {}, "tw": {}}
+
+    def dec(bs):
+        return [b.decode("utf8") for b in bs]
+    with ix.searcher() as s:
+        r = s.reader()
+        out["reader"] = type(r).__name__
+        out["nleaf"] = len(list(r.leaf_readers()))
+        try:
+            out["lexicon"] = dec(r.lexicon(FIELD))
+        except Exception as e:  # noqa
+            out["lexicon"] = exc_name(e)
+        for pre in pres:
+            try:
+                out["tfrom"][pre] = dec(t for f, t in r.terms_from(FIELD, pre.encode("utf8")) if f == FIELD)
+            except Exception as e:  # noqa
+                out["tfrom"][pre] = exc_name(e)
+            try:
+                out["expand"][pre] = dec(r.expand_prefix(FIELD, pre))
+            except Exception as e:  # noqa
+                out["expand"][pre] = exc_name(e)
+        from whoosh import query
+        out["qdocs"], out["dfq"], out["search"] = {}, {}, {}
+        for w, d, p in queries:
+            out["tw"][(w, d, p)] = real_terms_within(r, w, d, p)
+            # the same FuzzyTerm through three access paths (document numbers)
+            for name, fn in (("qdocs", lambda q: sorted(q.docs(s))),
+                             ("dfq", lambda q: sorted(s.docs_for_query(q))),
+                             ("search", lambda q: sorted(h.docnum for h in s.search(q, limit=None)))):
+                try:
+                    out[name][(w, d, p)] = fn(query.FuzzyTerm(FIELD, w, maxdist=d, prefixlength=p))
+                except Exception as e:  # noqa
+                    out[name][(w, d, p)] = exc_name(e)
+    return out
+
+
 def _qtext(q):
     """Text of the single Term a corrected query consists of (or a canonical dump)."""
     from whoosh import query
